@@ -87,6 +87,8 @@ func c18Letters(limit int) []c18Letter {
 		c18Letter{fmt.Sprintf("COPY%v", copyB), burst(copyB, 53)},
 		c18Letter{fmt.Sprintf("Parse+Bind%v+Execute+Sync", bindA), batch(bindA, 56)},
 		c18Letter{fmt.Sprintf("Parse+Bind%v+Execute+Sync", bindB), batch(bindB, 57)},
+		// a Parse the parser refuses (its text is retained all the same), followed by discarded messages
+		c18Letter{"rejected Parse+Describe+Bind+Execute+Sync", pgproto.Cat(pgproto.Parse("r", "reject this text, keep it "+string(filler(40, 65))), pgproto.Describe('S', "r"), pgproto.Bind("", "r", nil, [][]byte{filler(30, 66)}, nil), pgproto.Execute("", 0), pgproto.Sync())},
 		// the unnamed statement / portal bound again and again (1 or 2 values)
 		c18Letter{"unnamed Parse+Bind[20]+Execute+Sync", pgproto.Cat(pgproto.Parse("", "later"), pgproto.Bind("", "", nil, [][]byte{filler(20, 62)}, nil), pgproto.Execute("", 0), pgproto.Sync())},
 		c18Letter{"unnamed Parse+Bind[30 10]+Execute+Sync", pgproto.Cat(pgproto.Parse("", "later"), pgproto.Bind("", "", nil, [][]byte{filler(30, 63), filler(10, 64)}, nil), pgproto.Execute("", 0), pgproto.Sync())},
@@ -208,6 +210,10 @@ func c18Run(limit int, hist []c18Letter) explore.Result {
 		if strings.HasPrefix(q, "first-") {
 			st.keepMap("client parameters (parser)", wire.ClientParameters(ctx))
 		}
+		if strings.HasPrefix(q, "reject") {
+			// the parser refuses the text but keeps it (audit log, negative parse cache): retained like any other
+			return nil, errors.New("parser refuses this text")
+		}
 		if q == "cp-fail" {
 			st.keepString("query text cp-fail", q)
 			return wire.Prepared(wire.NewStatement(func(ctx context.Context, w wire.DataWriter, p []wire.Parameter) error {
@@ -324,6 +330,16 @@ func c18Run(limit int, hist []c18Letter) explore.Result {
 	return res
 }
 
+// c18LongLetters: queries of 8 ... 70000 bytes under a 128 KiB limit: histories of these cross every allocation
+// boundary a reader may use (4 KiB blocks, 64 KiB slabs), with small messages in between and behind.
+func c18LongLetters() []c18Letter {
+	var ls []c18Letter
+	for i, n := range []int{8, 500, 3000, 4096, 30000, 70000} {
+		ls = append(ls, c18Letter{fmt.Sprintf("Query(body=%d)", n), queryOfBody(n, byte(70+i))})
+	}
+	return ls
+}
+
 func c18Names(h []c18Letter) []string {
 	out := make([]string, len(h))
 	for i, l := range h {
@@ -337,7 +353,7 @@ func init() {
 		ID:          "C18",
 		Level:       "model_checking",
 		Technique:   "exhaustive enumeration of later-traffic histories over message sizes around the 4 KiB allocation granule and the message limit, on a real server whose callbacks retain (without copying) everything they were handed next to a private clone; invariant checked after every message",
-		Rule:        "first phase retains startup parameters (validator + parser), database / user / password, a Query text, a Parse text and two Bind values; then every history of length <= d over 23 (limit 8192) / 22 (limit 1024, below the 4 KiB allocation granule) letters: Query bodies around the granule and the limit, oversized-and-skipped messages of several sizes, two COPY bursts (incl. an oversized CopyData), two Bind batches, two batches on the unnamed statement / portal (the parameter LIST handed to the statement function is retained as well), Close of the portals / statements whose values were retained, re-definition of those names; at the end the connection is closed and another client is served: everything retained is checked again",
+		Rule:        "first phase retains startup parameters (validator + parser), database / user / password, a Query text, a Parse text and two Bind values; then every history of length <= d over 24 (limit 8192) / 23 (limit 1024, below the 4 KiB allocation granule) letters: Query bodies around the granule and the limit, oversized-and-skipped messages of several sizes, two COPY bursts (incl. an oversized CopyData), two Bind batches, two batches on the unnamed statement / portal (the parameter LIST handed to the statement function is retained as well), Close of the portals / statements whose values were retained, re-definition of those names; a third configuration (limit 128 KiB): all histories of 3-5 queries of 8 ... 70000 bytes; at the end the connection is closed and another client is served: everything retained is checked again",
 		Assumptions: []string{"CopyData payload views are not retained: the statement lists query texts, parameter values, client parameters and passwords"},
 		Enumerate:   c18Enumerate,
 		Bounds: func(tier string) map[string]any {
@@ -355,6 +371,25 @@ func c18Depth(tier string) int {
 }
 
 func c18Enumerate(tier string, emit explore.Emit) {
+	{
+		letters := c18LongLetters()
+		depth := 5
+		if tier == "thorough" {
+			depth = 6
+		}
+		forShapes(len(letters), depth, func(sh []int) {
+			if len(sh) < 3 {
+				return
+			}
+			hist := make([]c18Letter, len(sh))
+			for i, s := range sh {
+				hist[i] = letters[s]
+			}
+			emit(explore.Case{Family: "retention/limit=131072", Size: 10 + len(hist),
+				Desc: func() any { return map[string]any{"message_limit": 1 << 17, "later_traffic": c18Names(hist)} },
+				Run:  func() explore.Result { return c18Run(1<<17, hist) }})
+		})
+	}
 	for _, limit := range []int{c18Limit, 1024} {
 		limit := limit
 		letters := c18Letters(limit)
